@@ -71,8 +71,8 @@ PROPS = {
     "C05": _p(["B1", "B2", "B3", "B4", "B5", "B6", "B7", "B9", "B10", "B11", "P1", "N2", "X2", "L2", "L4", "I1", "B12", "B13", "P2"],
               "every index into the saved-mark arrays of an undo record fits the smallest allocation of that array, loop bounds included (B12); functions handed (buffer, length) pairs keep every store, memcpy and snprintf within the length, given that every call site passes at most the array it owns (B13); no local keeps the current-buffer pointer across a call that can switch or free buffers (P2); the bounded-write clauses named in the anchors, each by a linear proof from the dominating guards (Fourier-Motzkin over the AST's conditions, for all values): writes into fixed arrays at the frozen guard-bounded sites - recording, push-back, repeat, tag stack, auto-indent, vi key stack (B1, guard must be in element units); every strcpy/strcat/sprintf into a fixed array against an interprocedural string-length bound, every snprintf size against its array (B2); every write through a freshly malloc'ed block against the allocation size, incl. line re-termination and the growth copies under the declared struct invariants (B3, I1); the string buffer keeps s_n + written + 1 <= s_sz for allocated and fresh buffers (B4); the 512-byte command gate dominates the three part copies and the copiers write at most one byte per byte read (B5); matcher out-arrays hold 2n ints and the \\\\digit index stays inside (B6); table-bounded loops fit their arrays (B7); every lbuf_get / reg_get result is null-tested, index-proved or given only to null-tolerant callees (B9, B10); the unchecked per-line mark accessors get 0 <= i < lbuf_len (B11); register text is not used across a call that can free it (P1); a successful address resolution is a range inside the buffer (X2); the literal matcher defines all group slots and never looks before the line (L2, L4).",
               "absence of all memory errors (indices that are matcher offsets, permutation values or display columns are named exceptions listed in the evidence notes), termination / bounded time, and the %d-only sprintf calls into the small terminal buffers (width depends on window geometry)."),
-    "C06": _p(["X1", "X2", "X3", "X4", "X5", "G3", "U1", "X6", "G7", "X7"],
-              "append splices at (end, end), insert at (beg, beg) and change at (beg, end) of the range ex_region validated, on every path to the splice classified by the command letter it tested (X7); the shift of the numbered registers runs down to the register that receives the new text (G7); a write() that sends `total - done` bytes starts at `buf + done` (X6: the filter pipe resumes a partial write where it stopped); all 14 ex_region call sites test the result and the fail edge reaches only failing "
+    "C06": _p(["X1", "X2", "X3", "X4", "X5", "G3", "U1", "X6", "G7", "X7", "X8"],
+              "a caller that reads the range on ex_region's failure path has initialised it (X8); append splices at (end, end), insert at (beg, beg) and change at (beg, end) of the range ex_region validated, on every path to the splice classified by the command letter it tested (X7); the shift of the numbered registers runs down to the register that receives the new text (G7); a write() that sends `total - done` bytes starts at `buf + done` (X6: the filter pipe resumes a partial write where it stopped); all 14 ex_region call sites test the result and the fail edge reaches only failing "
               "returns with no effect on buffer, registers, marks or current line (address 0 "
               "tolerated only for a/i/c with both bounds 0) (X1); every path of ex_region to "
               "`return 0` establishes 0 <= beg <= end <= $ by the linear prover (X2); handlers "
@@ -104,14 +104,14 @@ PROPS = {
     "C18": _p(["O1", "O2", "K2", "K3", "B7", "T4"],
               "the order array is written only by the identity initialisation over [0,n), the guarded terminator fixed point and an element swap whose loop runs while beg < end, and is inverted as off[pos[i]] = i (O1: necessary for `always a permutation`); every shaping form is, per the Unicode database, the isolated/initial/medial/final presentation form of the same letter, the table is strictly increasing for its bisection, and uc_cshape picks medial/final/initial/base by (join_prev, join_next) for every row x 25 neighbour contexts and never alters non-Arabic characters, by abstract evaluation (K2); direction-mark rows reference existing groups that fit subs[], dir/ctx in range (K3); the loops filling the pattern arrays are bounded by table lengths <= array sizes (B7).",
               "that swap ranges stay inside the line (matcher offsets) and the reversal semantics of runs (behavioural)."),
-    "C12": _p(["L1", "L2", "L3", "L4", "L5", "T4", ],
-              "the fast path accepts an offset exactly when the engine's own RA_WBEG / RA_WEND atoms accept it, on every line of length <= 3 over {word, '-', blank}, and folds case exactly as the engine's literal atom does on every byte against its 0x20-neighbours (L5); every byte the regex parser treats as an operator (case labels, strchr sets and comparisons of the parser functions) stops the literal classifier's scan, so a pattern with an operator is never a literal (L1); a literal match stores all 2n group slots, groups >= 1 as unset, and the set matcher fills all slots whenever it returns >= 0 (L2); the two word predicates agree on all 255 byte values by abstract evaluation (L3); the word-boundary tests never read before the subject (linear proof at each look-behind read) (L4).",
+    "C12": _p(["L1", "L2", "L3", "L4", "L5", "T4", "M2"],
+              "resumed at an interior offset with the left-context flag, the fast path, the engine started there and the engine on the whole line give the same first match on all lines of length <= 3 (L5); every caller that resumes inside a line passes that flag and the caller working on a copied run does not (M2); the fast path accepts an offset exactly when the engine's own RA_WBEG / RA_WEND atoms accept it, on every line of length <= 3 over {word, '-', blank}, and folds case exactly as the engine's literal atom does on every byte against its 0x20-neighbours (L5); every byte the regex parser treats as an operator (case labels, strchr sets and comparisons of the parser functions) stops the literal classifier's scan, so a pattern with an operator is never a literal (L1); a literal match stores all 2n group slots, groups >= 1 as unset, and the set matcher fills all slots whenever it returns >= 0 (L2); the two word predicates agree on all 255 byte values by abstract evaluation (L3); the word-boundary tests never read before the subject (linear proof at each look-behind read) (L4).",
               "equality of the two matchers' offsets on all lines (behavioural)."),
     "C13": _p(["M2", "M1", "M3", "T4", "M4"],
-              "every place in vi.c that installs a new keyword assigns the remembered line offset before anything reads it (M4: typestate over the CFG and the call graph); only the premise `matches are judged against the whole line`: the matcher call in lbuf_search is on an interior pointer and neither matcher receives the line start (M2: reported as the known finding D12), and its flags can carry RE_NOTBOL for the resumed scan (M1).",
+              "every place in vi.c that installs a new keyword assigns the remembered line offset before anything reads it (M4: typestate over the CFG and the call graph); the premise `matches are judged against the whole line`: every matcher call on an interior pointer of the line (lbuf_search, ec_substitute, syn_highlight) can carry the left-context flag, both matchers honour it, the copied run in dir_match does not claim it (M2, formerly the known finding D12), and the flags can carry RE_NOTBOL for the resumed scan (M1).",
               "which occurrence is chosen, wrap-around, counts, n/N (behavioural)."),
-    "C14": _p(["M1", "T1", "L2", "B6", "T4", "R5", "R9", "T5", "R12", "R11"],
-              "nothing that can store another keyword runs between ec_substitute storing its own pattern and reading it back (T5); group marks are reset for every start position (R12); rescans of the advanced line can carry RE_NOTBOL so a line-start anchor matches only at the true start (M1); after an empty match the scan advances by a decoded character length, never by a constant byte step on line text without ASCII knowledge, so valid UTF-8 stays valid (T1); group references read defined offsets inside offs[32] (L2, B6).",
+    "C14": _p(["M1", "T1", "L2", "B6", "T4", "R5", "R9", "T5", "R12", "R11", "T6", "M2"],
+              "the one-character step after a zero-length match is implied by end == start at any offset (T6); the resumed scan passes the left-context flag so word boundaries see the real preceding character (M2); nothing that can store another keyword runs between ec_substitute storing its own pattern and reading it back (T5); group marks are reset for every start position (R12); rescans of the advanced line can carry RE_NOTBOL so a line-start anchor matches only at the true start (M1); after an empty match the scan advances by a decoded character length, never by a constant byte step on line text without ASCII knowledge, so valid UTF-8 stays valid (T1); group references read defined offsets inside offs[32] (L2, B6).",
               "leftmost non-overlapping selection and replacement expansion (behavioural)."),
     "C16": _p(["T1", "T2", "T3", "T4", "R5"],
               "the lead-byte length classes, masks and shifts of uc_len/uc_code equal RFC 3629's for all 256 lead bytes x continuation combinations, and the continuation-scanning uc_end agrees with the lead-byte length on well-formed input (T3); the regex engine's private uc_len/uc_dec/uc_beg equal the editor's on all well-formed inputs, by abstract evaluation of both ASTs (T2); no constant byte step is taken on line text without ASCII knowledge (T1).",
